@@ -336,6 +336,7 @@ func c10Run(c *engine.Ctx) {
 	c10BigIntegers(c)
 	c10MixedScale(c)
 	c10IntRange(c)
+	c10SecondOrder(c)
 	if c.Get("exactly_collinear") == 0 || c.Get("non_collinear") == 0 {
 		c.Warn("vacuous: one of the sign classes is empty")
 	}
